@@ -689,7 +689,7 @@ impl Run {
 }
 
 /// await a future, turning a panic inside it into Err(message)
-async fn futures_catch<F: std::future::Future + std::panic::UnwindSafe>(f: F) -> Result<F::Output, String> {
+pub(crate) async fn futures_catch<F: std::future::Future + std::panic::UnwindSafe>(f: F) -> Result<F::Output, String> {
     use std::future::Future;
     use std::pin::Pin;
     use std::task::{Context, Poll};
